@@ -143,15 +143,13 @@ theorem runItems_match (r : List Nat) (hr : r ≠ []) (hc : Consec r) (hs : ∀ 
   · simp only [List.any_cons, List.any_nil, Bool.or_false, itemMatches1, Bool.and_eq_true, decide_eq_true_eq]
     exact consec_range r hr hc hs x hx
 
-/-- **a printed class matches exactly its members** (on scalar values) -/
-theorem classItems_match (cs : List Nat) (hne : cs ≠ []) (hs : ∀ c ∈ cs, Scalar c) (x : Nat) (hx : Scalar x) :
-    setMatches false (classItems cs) false x = true ↔ x ∈ cs := by
+theorem classItems_any (cs : List Nat) (hne : cs ≠ []) (hs : ∀ c ∈ cs, Scalar c) (x : Nat) (hx : Scalar x) :
+    (classItems cs).any (fun it => itemMatches1 it x) = true ↔ x ∈ cs := by
   obtain ⟨h1, h2, h3, _⟩ := runs_spec cs
   have hmem : ∀ r ∈ runs cs, ∀ c ∈ r, c ∈ cs := by
     intro r hr c hc
     rw [← h1]; exact List.mem_flatten.mpr ⟨r, hr, hc⟩
-  simp only [setMatches, itemMatches, Bool.false_and, Bool.or_false, bne_iff_ne, ne_eq, Bool.not_eq_false, classItems,
-    List.any_flatMap, List.any_eq_true]
+  simp only [classItems, List.any_flatMap, List.any_eq_true]
   constructor
   · rintro ⟨r, hr, h⟩
     have := (runItems_match r (h3 hne r hr) (h2 r hr) (fun c hc => hs c (hmem r hr c hc)) x hx).mp
@@ -163,6 +161,51 @@ theorem classItems_match (cs : List Nat) (hne : cs ≠ []) (hs : ∀ c ∈ cs, S
     refine ⟨r, hr, ?_⟩
     have := (runItems_match r (h3 hne r hr) (h2 r hr) (fun c hc => hs c (hmem r hr c hc)) x hx).mpr hxr
     simpa [List.any_eq_true] using this
+
+theorem classItems_range (cs : List Nat) : ∀ it ∈ classItems cs, ∃ lo hi, it = ClassItem.range lo hi := by
+  intro it hit
+  simp only [classItems, List.mem_flatMap] at hit
+  obtain ⟨r, _, hr⟩ := hit
+  unfold runItems at hr
+  split at hr
+  · obtain ⟨c, _, rfl⟩ := List.mem_map.mp hr; exact ⟨c, c, rfl⟩
+  · simp only [List.mem_singleton] at hr; exact ⟨_, _, hr⟩
+
+/-- every member of a simple-case-folding orbit in the generated table is a scalar value -/
+theorem fold_table_scalar : Gen.rxFold.all (fun r => r.2.all isScalar) = true := by decide +kernel
+
+theorem foldOthers_scalar (x y : Nat) (h : y ∈ foldOthers x) : Scalar y := by
+  unfold foldOthers at h
+  split at h
+  · rename_i r hr
+    have hm := List.mem_of_find?_eq_some hr
+    have := List.all_eq_true.mp fold_table_scalar r hm
+    exact (scalar_iff y).mp (List.all_eq_true.mp this y h)
+  · simp at h
+
+theorem chrMatches_iff (i : Bool) (c x : Nat) : chrMatches i c x = true ↔ (x = c ∨ (i = true ∧ c ∈ foldOthers x)) := by
+  simp [chrMatches]
+
+/-- **a printed class matches exactly its members** (on scalar values), under `(?i)` up to simple case folding -/
+theorem classItems_match (i : Bool) (cs : List Nat) (hne : cs ≠ []) (hs : ∀ c ∈ cs, Scalar c) (x : Nat) (hx : Scalar x) :
+    setMatches i (classItems cs) false x = true ↔ ∃ c ∈ cs, chrMatches i c x = true := by
+  simp only [setMatches, bne_iff_ne, ne_eq, Bool.not_eq_false, List.any_eq_true, chrMatches_iff]
+  constructor
+  · rintro ⟨it, hit, h⟩
+    obtain ⟨lo, hi, rfl⟩ := classItems_range cs it hit
+    simp only [itemMatches, Bool.or_eq_true, Bool.and_eq_true, List.any_eq_true] at h
+    rcases h with h | ⟨hi', y, hy, h⟩
+    · exact ⟨x, (classItems_any cs hne hs x hx).mp (List.any_eq_true.mpr ⟨_, hit, h⟩), Or.inl rfl⟩
+    · exact ⟨y, (classItems_any cs hne hs y (foldOthers_scalar x y hy)).mp (List.any_eq_true.mpr ⟨_, hit, h⟩),
+        Or.inr ⟨hi', hy⟩⟩
+  · rintro ⟨c, hc, rfl | ⟨hi', hy⟩⟩
+    · obtain ⟨it, hit, h⟩ := List.any_eq_true.mp ((classItems_any cs hne hs x hx).mpr hc)
+      exact ⟨it, hit, by simp [itemMatches, h]⟩
+    · obtain ⟨it, hit, h⟩ := List.any_eq_true.mp ((classItems_any cs hne hs c (hs c hc)).mpr hc)
+      obtain ⟨lo, hi, rfl⟩ := classItems_range cs it hit
+      refine ⟨_, hit, ?_⟩
+      simp only [itemMatches, Bool.or_eq_true, Bool.and_eq_true, List.any_eq_true]
+      exact Or.inr ⟨hi', c, hy, h⟩
 
 theorem value_ofStr (s : Str) : (Grapheme.ofStr s).value = s := by
   show [s].flatten = s
@@ -243,17 +286,17 @@ def atomPat : Atom → Pat
   | .chr c => Pat.chr c
   | .cls k n => Pat.perl k n
 
-def atomDen : Atom → Nat → Prop
-  | .chr c, x => x = c
+def atomDen (i : Bool) : Atom → Nat → Prop
+  | .chr c, x => chrMatches i c x = true
   | .cls k n, x => (perlMember k x != n) = true
 
 /-- a string matches a sequence of atoms position by position -/
-def atomsDen : List Atom → Str → Prop
+def atomsDen (i : Bool) : List Atom → Str → Prop
   | [], s => s = []
-  | a :: as, s => ∃ x r, s = x :: r ∧ atomDen a x ∧ atomsDen as r
+  | a :: as, s => ∃ x r, s = x :: r ∧ atomDen i a x ∧ atomsDen i as r
 
-theorem atomsDen_append (a b : List Atom) (s : Str) :
-    atomsDen (a ++ b) s ↔ ∃ u v, s = u ++ v ∧ atomsDen a u ∧ atomsDen b v := by
+theorem atomsDen_append (i : Bool) (a b : List Atom) (s : Str) :
+    atomsDen i (a ++ b) s ↔ ∃ u v, s = u ++ v ∧ atomsDen i a u ∧ atomsDen i b v := by
   induction a generalizing s with
   | nil =>
     simp only [List.nil_append, atomsDen]
@@ -276,7 +319,7 @@ theorem atomsOf_append (a b : Word) : atomsOf (a ++ b) = atomsOf a ++ atomsOf b 
 theorem atomsOf_nil : atomsOf [] = [] := rfl
 
 /-- the string-level language of an expression: the symbol-level words with every grapheme read atom by atom -/
-def Expr.strLang (e : Expr) (s : Str) : Prop := ∃ w, e.lang w ∧ atomsDen (atomsOf w) s
+def Expr.strLang (i : Bool) (e : Expr) (s : Str) : Prop := ∃ w, e.lang w ∧ atomsDen i (atomsOf w) s
 
 
 /-! ### the printed pattern of an expression -/
@@ -340,11 +383,11 @@ end
 
 /-! ### denotation of item lists -/
 
-def denL : List Pat → Str → Prop
+def denL (i : Bool) : List Pat → Str → Prop
   | [], s => s = []
-  | p :: ps, s => ∃ u v, s = u ++ v ∧ p.den false u ∧ denL ps v
+  | p :: ps, s => ∃ u v, s = u ++ v ∧ p.den i u ∧ denL i ps v
 
-theorem den_catList (ps : List Pat) (s : Str) : (catList ps).den false s ↔ denL ps s := by
+theorem den_catList (i : Bool) (ps : List Pat) (s : Str) : (catList ps).den i s ↔ denL i ps s := by
   induction ps generalizing s with
   | nil => simp [catList, Pat.den, denL]
   | cons p ps ih =>
@@ -360,7 +403,7 @@ theorem den_catList (ps : List Pat) (s : Str) : (catList ps).den false s ↔ den
       · rintro ⟨u, v, rfl, h1, h2⟩; exact ⟨u, v, rfl, h1, (ih v).mp h2⟩
       · rintro ⟨u, v, rfl, h1, h2⟩; exact ⟨u, v, rfl, h1, (ih v).mpr h2⟩
 
-theorem denL_append (a b : List Pat) (s : Str) : denL (a ++ b) s ↔ ∃ u v, s = u ++ v ∧ denL a u ∧ denL b v := by
+theorem denL_append (i : Bool) (a b : List Pat) (s : Str) : denL i (a ++ b) s ↔ ∃ u v, s = u ++ v ∧ denL i a u ∧ denL i b v := by
   induction a generalizing s with
   | nil =>
     simp only [List.nil_append, denL]
@@ -376,7 +419,7 @@ theorem denL_append (a b : List Pat) (s : Str) : denL (a ++ b) s ↔ ∃ u v, s 
     · rintro ⟨u, v, rfl, ⟨u1, u2, rfl, h1, h2⟩, h3⟩
       exact ⟨u1, u2 ++ v, by simp, h1, (ih _).mpr ⟨u2, v, rfl, h2, h3⟩⟩
 
-theorem den_altList (ps : List Pat) (hne : ps ≠ []) (s : Str) : (altList ps).den false s ↔ ∃ p ∈ ps, p.den false s := by
+theorem den_altList (i : Bool) (ps : List Pat) (hne : ps ≠ []) (s : Str) : (altList ps).den i s ↔ ∃ p ∈ ps, p.den i s := by
   induction ps with
   | nil => exact absurd rfl hne
   | cons p ps ih =>
@@ -389,12 +432,12 @@ theorem den_altList (ps : List Pat) (hne : ps ≠ []) (s : Str) : (altList ps).d
 
 theorem chrMatches_false (c x : Nat) : chrMatches false c x = true ↔ x = c := by simp [chrMatches]
 
-theorem den_atomPat (a : Atom) (u : Str) : (atomPat a).den false u ↔ ∃ x, u = [x] ∧ atomDen a x := by
+theorem den_atomPat (i : Bool) (a : Atom) (u : Str) : (atomPat a).den i u ↔ ∃ x, u = [x] ∧ atomDen i a x := by
   cases a with
   | chr c => simp [atomPat, Pat.den, atomDen, chrMatches_false]
   | cls k n => simp [atomPat, Pat.den, atomDen]
 
-theorem denL_atoms (as : List Atom) (s : Str) : denL (as.map atomPat) s ↔ atomsDen as s := by
+theorem denL_atoms (i : Bool) (as : List Atom) (s : Str) : denL i (as.map atomPat) s ↔ atomsDen i as s := by
   induction as generalizing s with
   | nil => simp [denL, atomsDen]
   | cons a as ih =>
@@ -409,28 +452,28 @@ theorem denL_atoms (as : List Atom) (s : Str) : denL (as.map atomPat) s ↔ atom
 
 namespace Expr
 
-theorem strLang_lit (c : Cluster) (s : Str) : (Expr.lit c).strLang s ↔ atomsDen (atomsOf c) s := by
+theorem strLang_lit (i : Bool) (c : Cluster) (s : Str) : (Expr.lit c).strLang i s ↔ atomsDen i (atomsOf c) s := by
   simp only [strLang, lang]
   constructor
   · rintro ⟨w, rfl, h⟩; exact h
   · intro h; exact ⟨c, rfl, h⟩
 
-theorem atomsDen_single (c : Nat) (s : Str) : atomsDen [Atom.chr c] s ↔ s = [c] := by
+theorem atomsDen_single (i : Bool) (c : Nat) (s : Str) : atomsDen i [Atom.chr c] s ↔ ∃ x, s = [x] ∧ chrMatches i c x = true := by
   simp only [atomsDen, atomDen]
   constructor
-  · rintro ⟨x, r, rfl, rfl, rfl⟩; rfl
-  · rintro rfl; exact ⟨c, [], rfl, rfl, rfl⟩
+  · rintro ⟨x, r, rfl, h, rfl⟩; exact ⟨x, rfl, h⟩
+  · rintro ⟨x, rfl, h⟩; exact ⟨x, [], rfl, h, rfl⟩
 
-theorem strLang_cls (cs : List Nat) (s : Str) : (Expr.cls cs).strLang s ↔ ∃ c ∈ cs, s = [c] := by
+theorem strLang_cls (i : Bool) (cs : List Nat) (s : Str) : (Expr.cls cs).strLang i s ↔ ∃ c ∈ cs, ∃ x, s = [x] ∧ chrMatches i c x = true := by
   simp only [strLang, lang]
   constructor
   · rintro ⟨w, ⟨c, hc, rfl⟩, h⟩
     refine ⟨c, hc, ?_⟩
     simpa [atomsOf, value_ofStr, tokens_single, atomsDen_single] using h
-  · rintro ⟨c, hc, rfl⟩
-    exact ⟨_, ⟨c, hc, rfl⟩, by simp [atomsOf, value_ofStr, tokens_single, atomsDen_single]⟩
+  · rintro ⟨c, hc, h⟩
+    exact ⟨_, ⟨c, hc, rfl⟩, by simpa [atomsOf, value_ofStr, tokens_single, atomsDen_single] using h⟩
 
-theorem strLang_cat (a b : Expr) (s : Str) : (Expr.cat a b).strLang s ↔ ∃ u v, s = u ++ v ∧ a.strLang u ∧ b.strLang v := by
+theorem strLang_cat (i : Bool) (a b : Expr) (s : Str) : (Expr.cat a b).strLang i s ↔ ∃ u v, s = u ++ v ∧ a.strLang i u ∧ b.strLang i v := by
   simp only [strLang, lang]
   constructor
   · rintro ⟨w, ⟨u, v, rfl, h1, h2⟩, h⟩
@@ -440,7 +483,7 @@ theorem strLang_cat (a b : Expr) (s : Str) : (Expr.cat a b).strLang s ↔ ∃ u 
   · rintro ⟨s1, s2, rfl, ⟨u, h1, d1⟩, ⟨v, h2, d2⟩⟩
     exact ⟨u ++ v, ⟨u, v, rfl, h1, h2⟩, by rw [atomsOf_append, atomsDen_append]; exact ⟨s1, s2, rfl, d1, d2⟩⟩
 
-theorem strLang_opt (e : Expr) (s : Str) : (Expr.rep e .question).strLang s ↔ s = [] ∨ e.strLang s := by
+theorem strLang_opt (i : Bool) (e : Expr) (s : Str) : (Expr.rep e .question).strLang i s ↔ s = [] ∨ e.strLang i s := by
   simp only [strLang, lang]
   constructor
   · rintro ⟨w, rfl | h, d⟩
@@ -450,7 +493,7 @@ theorem strLang_opt (e : Expr) (s : Str) : (Expr.rep e .question).strLang s ↔ 
     · exact ⟨[], Or.inl rfl, by simp [atomsOf, atomsDen]⟩
     · exact ⟨w, Or.inr h, d⟩
 
-theorem strLang_alt (os : List Expr) (s : Str) : (Expr.alt os).strLang s ↔ ∃ o ∈ os, o.strLang s := by
+theorem strLang_alt (i : Bool) (os : List Expr) (s : Str) : (Expr.alt os).strLang i s ↔ ∃ o ∈ os, o.strLang i s := by
   simp only [strLang, lang, langAny_iff]
   constructor
   · rintro ⟨w, ⟨o, ho, h⟩, d⟩; exact ⟨o, ho, w, h, d⟩
@@ -502,10 +545,10 @@ theorem single_literal (c : Cluster) (h : PlainBs c) (hlen : (flat c).length = 1
       | Atom.cls k n :: r, _, hl => simp [untok] at hl
 
 /-- a single-code-point expression contributes exactly one item, and grouping is transparent -/
-theorem denL_subOf (cap : Bool) (outer : Nat) (e : Expr) (its : List Pat) (bd : Pat) (s : Str)
-    (h1 : e.isAlt = false → (denL its s ↔ e.strLang s)) (h2 : bd.den false s ↔ e.strLang s)
+theorem denL_subOf (i : Bool) (cap : Bool) (outer : Nat) (e : Expr) (its : List Pat) (bd : Pat) (s : Str)
+    (h1 : e.isAlt = false → (denL i its s ↔ e.strLang i s)) (h2 : bd.den i s ↔ e.strLang i s)
     (halt : e.isAlt = true → outer ≥ 2) :
-    denL (subOf cap outer e its bd) s ↔ e.strLang s := by
+    denL i (subOf cap outer e its bd) s ↔ e.strLang i s := by
   unfold subOf
   split
   · simp only [denL, Pat.den]
@@ -524,41 +567,42 @@ theorem denL_subOf (cap : Bool) (outer : Nat) (e : Expr) (its : List Pat) (bd : 
 
 mutual
 /-- **the printed pattern denotes the string-level language** -/
-theorem Expr.both_den (cap : Bool) : ∀ (e : Expr), e.WF → ∀ s, (∀ c ∈ s, Scalar c) →
-    (e.isAlt = false → (denL (e.both cap).1 s ↔ e.strLang s)) ∧ ((e.both cap).2.den false s ↔ e.strLang s)
+theorem Expr.both_den (i : Bool) (cap : Bool) : ∀ (e : Expr), e.WF → ∀ s, (∀ c ∈ s, Scalar c) →
+    (e.isAlt = false → (denL i (e.both cap).1 s ↔ e.strLang i s)) ∧ ((e.both cap).2.den i s ↔ e.strLang i s)
   | .lit c, _, s, _ => by
     simp [Expr.both, den_catList, denL_atoms, Expr.strLang_lit]
   | .cls cs, h, s, hs => by
-    have key : denL [Pat.set (classItems cs) false] s ↔ (Expr.cls cs).strLang s := by
+    have key : denL i [Pat.set (classItems cs) false] s ↔ (Expr.cls cs).strLang i s := by
       rw [Expr.strLang_cls]
       simp only [denL, Pat.den]
       constructor
       · rintro ⟨u, v, rfl, ⟨x, rfl, hx⟩, rfl⟩
         have hxs : Scalar x := hs x (by simp)
-        exact ⟨x, (classItems_match cs h.1 h.2.1 x hxs).mp hx, by simp⟩
-      · rintro ⟨c, hc, rfl⟩
-        exact ⟨[c], [], rfl, ⟨c, rfl, (classItems_match cs h.1 h.2.1 c (h.2.1 c hc)).mpr hc⟩, rfl⟩
+        obtain ⟨c, hc, hm⟩ := (classItems_match i cs h.1 h.2.1 x hxs).mp hx
+        exact ⟨c, hc, x, by simp, hm⟩
+      · rintro ⟨c, hc, x, rfl, hm⟩
+        exact ⟨[x], [], rfl, ⟨x, rfl, (classItems_match i cs h.1 h.2.1 x (hs x (by simp))).mpr ⟨c, hc, hm⟩⟩, rfl⟩
     simp only [Expr.both, den_catList]
     exact ⟨fun _ => key, key⟩
   | .cat a b, h, s, hs => by
-    have key : denL (subOf cap 2 a (a.both cap).1 (a.both cap).2 ++ subOf cap 2 b (b.both cap).1 (b.both cap).2) s ↔
-        (Expr.cat a b).strLang s := by
+    have key : denL i (subOf cap 2 a (a.both cap).1 (a.both cap).2 ++ subOf cap 2 b (b.both cap).1 (b.both cap).2) s ↔
+        (Expr.cat a b).strLang i s := by
       rw [denL_append, Expr.strLang_cat]
       constructor
       · rintro ⟨u, v, rfl, h1, h2⟩
         have hu : ∀ c ∈ u, Scalar c := fun c hc => hs c (by simp [hc])
         have hv : ∀ c ∈ v, Scalar c := fun c hc => hs c (by simp [hc])
-        have ia := Expr.both_den cap a h.1 u hu
-        have ib := Expr.both_den cap b h.2 v hv
-        exact ⟨u, v, rfl, (denL_subOf cap 2 a _ _ u ia.1 ia.2 (fun _ => Nat.le_refl _)).mp h1,
-          (denL_subOf cap 2 b _ _ v ib.1 ib.2 (fun _ => Nat.le_refl _)).mp h2⟩
+        have ia := Expr.both_den i cap a h.1 u hu
+        have ib := Expr.both_den i cap b h.2 v hv
+        exact ⟨u, v, rfl, (denL_subOf i cap 2 a _ _ u ia.1 ia.2 (fun _ => Nat.le_refl _)).mp h1,
+          (denL_subOf i cap 2 b _ _ v ib.1 ib.2 (fun _ => Nat.le_refl _)).mp h2⟩
       · rintro ⟨u, v, rfl, h1, h2⟩
         have hu : ∀ c ∈ u, Scalar c := fun c hc => hs c (by simp [hc])
         have hv : ∀ c ∈ v, Scalar c := fun c hc => hs c (by simp [hc])
-        have ia := Expr.both_den cap a h.1 u hu
-        have ib := Expr.both_den cap b h.2 v hv
-        exact ⟨u, v, rfl, (denL_subOf cap 2 a _ _ u ia.1 ia.2 (fun _ => Nat.le_refl _)).mpr h1,
-          (denL_subOf cap 2 b _ _ v ib.1 ib.2 (fun _ => Nat.le_refl _)).mpr h2⟩
+        have ia := Expr.both_den i cap a h.1 u hu
+        have ib := Expr.both_den i cap b h.2 v hv
+        exact ⟨u, v, rfl, (denL_subOf i cap 2 a _ _ u ia.1 ia.2 (fun _ => Nat.le_refl _)).mpr h1,
+          (denL_subOf i cap 2 b _ _ v ib.1 ib.2 (fun _ => Nat.le_refl _)).mpr h2⟩
     simp only [Expr.both, den_catList]
     exact ⟨fun _ => key, key⟩
   | .rep e q, h, s, hs => by
@@ -584,11 +628,11 @@ theorem Expr.both_den (cap : Bool) : ∀ (e : Expr), e.WF → ∀ s, (∀ c ∈ 
           obtain ⟨x, _, hat, _⟩ := single_literal c hwf hlen
           exact ⟨Pat.chr x, by simp [Expr.both, hat, atomPat]⟩
     obtain ⟨p, hp⟩ := hsingle
-    have key : denL (optOf (subOf cap 3 e (e.both cap).1 (e.both cap).2)) s ↔ (Expr.rep e .question).strLang s := by
+    have key : denL i (optOf (subOf cap 3 e (e.both cap).1 (e.both cap).2)) s ↔ (Expr.rep e .question).strLang i s := by
       rw [hp, Expr.strLang_opt]
       simp only [optOf, denL, Pat.den]
-      have ie := Expr.both_den cap e hwf s hs
-      have hsub := denL_subOf cap 3 e _ _ s ie.1 ie.2 (fun _ => by omega)
+      have ie := Expr.both_den i cap e hwf s hs
+      have hsub := denL_subOf i cap 3 e _ _ s ie.1 ie.2 (fun _ => by omega)
       rw [hp] at hsub
       simp only [denL] at hsub
       constructor
@@ -608,14 +652,14 @@ theorem Expr.both_den (cap : Bool) : ∀ (e : Expr), e.WF → ∀ s, (∀ c ∈ 
       cases os with
       | nil => exact absurd rfl h.1
       | cons o os => simp [Expr.bothL]
-    rw [den_altList _ hne, Expr.strLang_alt]
-    exact Expr.bothL_den cap os h.2 s hs
-theorem Expr.bothL_den (cap : Bool) : ∀ (os : List Expr), Expr.WFL os → ∀ s, (∀ c ∈ s, Scalar c) →
-    ((∃ p ∈ Expr.bothL cap os, p.den false s) ↔ ∃ o ∈ os, o.strLang s)
+    rw [den_altList i _ hne, Expr.strLang_alt]
+    exact Expr.bothL_den i cap os h.2 s hs
+theorem Expr.bothL_den (i : Bool) (cap : Bool) : ∀ (os : List Expr), Expr.WFL os → ∀ s, (∀ c ∈ s, Scalar c) →
+    ((∃ p ∈ Expr.bothL cap os, p.den i s) ↔ ∃ o ∈ os, o.strLang i s)
   | [], _, s, _ => by simp [Expr.bothL]
   | o :: os, h, s, hs => by
-    have io := Expr.both_den cap o h.2.1 s hs
-    have ios := Expr.bothL_den cap os h.2.2 s hs
+    have io := Expr.both_den i cap o h.2.1 s hs
+    have ios := Expr.bothL_den i cap os h.2.2 s hs
     simp only [Expr.bothL, List.mem_cons, exists_eq_or_imp, den_catList]
     rw [io.1 h.1, ios]
 end
@@ -699,9 +743,9 @@ theorem Expr.bothL_frag (cap : Bool) : ∀ (os : List Expr), ∀ p ∈ Expr.both
 end
 
 /-- **string-level semantics of the printed pattern** `^ body $` accepts exactly the strings of the expression -/
-theorem anchored_body_accepts (cap : Bool) (e : Expr) (hwf : e.WF) (s : Str) (hs : ∀ c ∈ s, Scalar c) :
-    fullMatch false (.cat .bol (.cat (e.both cap).2 .eol)) s = true ↔ e.strLang s := by
-  rw [anchored_fullMatch false _ (Expr.both_frag cap e).2 s]
-  exact (Expr.both_den cap e hwf s hs).2
+theorem anchored_body_accepts (i : Bool) (cap : Bool) (e : Expr) (hwf : e.WF) (s : Str) (hs : ∀ c ∈ s, Scalar c) :
+    fullMatch i (.cat .bol (.cat (e.both cap).2 .eol)) s = true ↔ e.strLang i s := by
+  rw [anchored_fullMatch i _ (Expr.both_frag cap e).2 s]
+  exact (Expr.both_den i cap e hwf s hs).2
 
 end Grexv
